@@ -217,6 +217,6 @@ func (s *state) streamRaceCases() {
 			s.r.Sample(detail)
 		}
 	})
-	s.r.Require("streamrace_closes_placed", 60)
+	s.r.Require("streamrace_closes_placed", 40)
 	s.r.Require("streamrace_open_lost_after_mux_open", 6)
 }
